@@ -213,17 +213,17 @@ func childMain() {
 // inside the chroot, each of which the parent must report with the right effect.
 func tamper() error {
 	return errors.Join(
-		os.WriteFile("/sb/l1/outside/planted", []byte("x"), 0o644),                            // created
-		os.Remove("/sb/l1/l2/victim"),                                                         // deleted
-		os.WriteFile("/sb/l1/l2/l3/victim", []byte("overwritten"), 0o644),                     // content (in place)
-		os.Chmod("/sb/l1/victim", 0o600),                                                      // metadata: mode
-		os.Chown("/sb/victim", 77, 78),                                                        // metadata: owner
-		os.Chtimes("/sb/l1/l2/outside", time.Unix(5, 0), time.Unix(5, 0)),                     // metadata: directory mtime
+		os.WriteFile("/sb/l1/outside/planted", []byte("x"), 0o644),                                          // created
+		os.Remove("/sb/l1/l2/victim"),                                                                       // deleted
+		os.WriteFile("/sb/l1/l2/l3/victim", []byte("overwritten"), 0o644),                                   // content (in place)
+		os.Chmod("/sb/l1/victim", 0o600),                                                                    // metadata: mode
+		os.Chown("/sb/victim", 77, 78),                                                                      // metadata: owner
+		os.Chtimes("/sb/l1/l2/outside", time.Unix(5, 0), time.Unix(5, 0)),                                   // metadata: directory mtime
 		func() error { os.Remove("/sb/l1/l2/l3/vlink"); return os.Symlink("/abs", "/sb/l1/l2/l3/vlink") }(), // link target
-		func() error { os.Remove("/sb/l1/vlink"); return os.Mkdir("/sb/l1/vlink", 0o755) }(),  // replaced
-		os.WriteFile(path.Join(destAbs, "inside"), []byte("fine"), 0o644),                     // inside dest: not a difference
-		func() error { _, err := os.ReadDir("/sb/l1/l2/l3/sib"); return err }(),               // reading a directory: not a difference
-		os.WriteFile("/../../../escape-attempt", []byte("x"), 0o644),                          // stays inside the chroot: created at its root
+		func() error { os.Remove("/sb/l1/vlink"); return os.Mkdir("/sb/l1/vlink", 0o755) }(),                // replaced
+		os.WriteFile(path.Join(destAbs, "inside"), []byte("fine"), 0o644),                                   // inside dest: not a difference
+		func() error { _, err := os.ReadDir("/sb/l1/l2/l3/sib"); return err }(),                             // reading a directory: not a difference
+		os.WriteFile("/../../../escape-attempt", []byte("x"), 0o644),                                        // stays inside the chroot: created at its root
 	)
 }
 
